@@ -173,6 +173,78 @@ def run_requests(reqs, pre):
     return events
 
 
+def stream_events(rng, n_streams, length=12):
+    """pass 3: ONE Filters value judges a stream of records, as main.rs's loop does.  Streams are made
+    of records of two aircraft in several downlink formats, with runs of consecutive records of the
+    same aircraft whose formats fall on both sides of the df filter; every record is judged by the same
+    stateless Keep (a verdict is a function of the record and the configuration, not of the history)."""
+    dfs = list(ADDRESS_DFS)
+    plans, probes = [], []
+    for sidx in range(n_streams):
+        a1, a2 = pick_addr(rng, sidx * 3 + 4), rng.getrandbits(24)
+        if a1 == a2:
+            a2 ^= 1
+        recs = []
+        for j in range(length * 2):                      # candidates; undecodable draws are dropped
+            addr = a1 if (j // 3) % 3 != 2 else a2       # runs of the same aircraft
+            d = rng.choice(dfs)
+            frame, par, last = build_frame(d, addr, rng, IC_CODES[j % len(IC_CODES)])
+            recs.append({"d": d, "addr": addr, "frame": frame.hex()})
+            probes.append({"cmd": "filters", "frame": frame.hex(), "toml": ""})
+        plans.append({"a1": a1, "a2": a2, "recs": recs})
+    out, rc = core.run_jet(probes)
+    if len(out) != len(probes):
+        raise core.ToolError("driver died while probing stream frames")
+    k = 0
+    reqs, pres = [], []
+    for sidx, pl in enumerate(plans):
+        good = []
+        for r in pl["recs"]:
+            o = out[k]
+            k += 1
+            if "panic" not in o and o.get("decoded") and isinstance(o.get("json"), dict) \
+                    and "icao24" in o["json"] and "df" in o["json"]:
+                good.append(dict(r, sdf=int(o["json"]["df"]), sac=int(o["json"]["icao24"], 16)))
+        good = good[:length]
+        if len(good) < 2:
+            continue
+        shown_dfs = sorted({g["sdf"] for g in good})
+        mode = sidx % 4
+        # df filter: a proper, non-empty subset of the formats that occur (both verdicts occur in the stream)
+        dfl = [d for i, d in enumerate(shown_dfs) if i % 2 == 0] if mode != 3 else []
+        dfp = True
+        acl = [pl["a1"]] if mode in (0, 3) else [pl["a1"], pl["a2"]] if mode == 1 else [pl["a2"] ^ 0x10]
+        acp = True
+        toml = toml_of(dfp, dfl, acp, acl, upper=(sidx % 7 == 3))
+        reqs.append({"cmd": "filters_stream", "toml": toml, "frames": [g["frame"] for g in good]})
+
+        def cls(present, lst, v):
+            return "absent" if not present else "empty" if not lst else "containing" if v in lst else "notcontaining"
+        pres.append([{"kind": "ok", "d": g["sdf"], "dfc": cls(dfp, dfl, g["sdf"]), "acc": cls(acp, acl, g["sac"]),
+                      "df_present": dfp, "df_list": dfl, "ac_present": acp, "ac_list": acl,
+                      "nom_df": g["d"], "nom_icao": g["addr"], "frame": g["frame"], "toml": toml,
+                      "stream": sidx, "pos": j + 1, "stream_frames": [x["frame"] for x in good]}
+                     for j, g in enumerate(good)])
+    out, rc = core.run_jet(reqs)
+    if len(out) != len(reqs):
+        raise core.ToolError("driver died while filtering streams")
+    events = []
+    for pre, o in zip(pres, out):
+        if "error" in o:
+            raise core.ToolError(f"driver: {o['error']}")
+        for p, r in zip(pre, o["out"]):
+            ev = dict(p)
+            if "panic" in r:
+                ev.update(out="panic", decoded=False, df=-1, icao=-1, kept=False)
+            else:
+                js = r.get("json") if isinstance(r.get("json"), dict) else {}
+                shown = r["decoded"] and "df" in js and "icao24" in js
+                ev.update(out="ok", decoded=bool(r["decoded"]), kept=bool(r["kept"]),
+                          df=int(js["df"]) if shown else -1, icao=int(js["icao24"], 16) if shown else -1)
+            events.append(ev)
+    return events
+
+
 def judge(run, events, shards):
     rejected, results = core.validate_sharded("trace/Trace_Filters", events, run.work, shards=shards,
                                               timeout=3000)
@@ -204,6 +276,8 @@ def check(run):
     k = 1000 if thorough else 40
     cases, redraws = instantiate(rows, k, rng)
     events = events_of(cases, rng)
+    n_single = len(events)
+    events += stream_events(rng, 600 if thorough else 80)
     core.write_ndjson(os.path.join(run.work, "events.ndjson"), events)
     rejected = judge(run, events, shards=(8 if thorough else 4))
     per_row = {}
@@ -220,6 +294,10 @@ def check(run):
         "undecodable_records": sum(1 for e in events if not e["decoded"]),
         "kept": sum(1 for e in events if e["kept"]),
         "payload_redraws": redraws,
+        "stream_records": len(events) - n_single,
+        "stream_note": "records judged in streams by ONE Filters value (as main.rs's loop does): runs of consecutive "
+                       "records of the same aircraft in formats on both sides of the df filter; each judged by the same "
+                       "stateless Keep",
         "rejected_events": len(rejected),
         "exhaustive": True,
         "exhaustive_parts": "the decision table (all 192 rows: 9 DFs + 3 undecodable kinds, 4x4 filter classes) is "
@@ -255,7 +333,21 @@ def replay(run, path):
                                        "ac_list", "nom_df", "nom_icao", "frame", "toml")})
     if not pre:
         raise core.ToolError("replay file without cases")
-    events = run_requests([{"cmd": "filters", "frame": p["frame"], "toml": p["toml"]} for p in pre], pre)
+    streams = [c["event"] for c in doc.get("cases", []) if "stream_frames" in c["event"]]
+    if streams:
+        ev0 = streams[0]
+        out, rc = core.run_jet([{"cmd": "filters_stream", "toml": ev0["toml"], "frames": ev0["stream_frames"]}])
+        r = out[0]["out"][ev0["pos"] - 1]
+        js = r.get("json") if isinstance(r.get("json"), dict) else {}
+        ev = {k: v for k, v in ev0.items() if k not in ("out", "decoded", "kept", "df", "icao")}
+        if "panic" in r:
+            ev.update(out="panic", decoded=False, df=-1, icao=-1, kept=False)
+        else:
+            ev.update(out="ok", decoded=bool(r["decoded"]), kept=bool(r["kept"]),
+                      df=int(js.get("df", -1)), icao=int(js["icao24"], 16) if "icao24" in js else -1)
+        events = [ev]
+    else:
+        events = run_requests([{"cmd": "filters", "frame": p["frame"], "toml": p["toml"]} for p in pre], pre)
     rejected = judge(run, events, shards=1)
     run.cov.update({"traces_validated_against_impl": len(events), "exhaustive": False,
                     "rejected_events": len(rejected), "samples": [events[0]["frame"]],
